@@ -128,6 +128,9 @@ def scenario(run, tape, clock, stores):
         resave = tape.draw(8) == 7
         if resave and not by_recorder:
             run.probe('saved_twice_under_one_id')
+        touched = tape.draw(4) == 3 and not by_recorder    # the caller goes on using (and changing) its metadata objects after the save
+        if touched:
+            run.probe('metadata_objects_changed_by_the_caller_after_the_save')
         universe.append(md)
         for name in ('memory', 'file', 's3'):
             cas = cass[name]
@@ -144,10 +147,19 @@ def scenario(run, tape, clock, stores):
             else:
                 r = cas.create_new_recording(cats[i])
                 r.set_data('k', i)
-                r.add_metadata(copy.deepcopy(md))
+                mine = copy.deepcopy(md)
+                r.add_metadata(mine)
                 cas.save_recording(r)
                 if resave:
                     cas.save_recording(r)      # saved again under the same id: still one recording
+                if touched:
+                    # what is stored and looked up is the metadata as it was when the recording was saved
+                    for k_ in sorted(mine, key=repr):
+                        if isinstance(mine[k_], list):
+                            mine[k_].append('changed-after-save')
+                        elif isinstance(mine[k_], dict):
+                            mine[k_]['changed-after-save'] = 1
+                    mine['changed-after-save'] = True
                 ids[name][i] = r.id
         if tape.draw(10) == 9:
             # a save that fails because a value cannot be serialized: nothing may be listed for it, listings keep working
